@@ -85,6 +85,8 @@ pub struct SchedLog {
     pub time_advances: u64,
     /// the asynchronous SIGUSR1 requested by the set-up was actually raised
     pub raised: bool,
+    /// number of probe trace entries recorded when the asynchronous signal was raised
+    pub raised_trace_len: usize,
     /// times the harness resumed stopped processes at a stall
     pub conts: u64,
 }
@@ -498,6 +500,7 @@ pub fn run(setup: &Setup) -> RunResult {
                         if p.disposition(SIGUSR1) == yash_env::system::Disposition::Catch && p.state().is_alive() {
                             let _ = p.raise_signal(SIGUSR1);
                             log.raised = true;
+                            log.raised_trace_len = probes::TRACE.with(|t| t.borrow().len());
                         }
                     }
                 }
